@@ -71,6 +71,15 @@ RefineClauses ==
      same_up_to_symmetry |-> SameClassWeights(b, exp, geo, GE),
      no_duplicates |-> Rec.sym => LiveNoDup(b, geo, G),
      info_equals_spec  |-> b = exp ]
+(* the K list of run() at a hook event (fresh runs and restarts from a stored iteration): what C06 demands of any K list.
+   (The tiling by the image cells of the live points is evaluated on the same lists by the harness, FineGeo.images_tile.) *)
+KStateClauses ==
+   LET geo == GeoOf(Rec)  G == grpset  GE == IF Rec.sym THEN G ELSE {Id3}  kl == FList(Rec.kl) IN
+   [ in_model     |-> Compatible(FineU(geo), G) /\ \A q \in 1..Len(kl) : kl[q].lev \in 0..geo.L,
+     nonnegative  |-> \A q \in 1..Len(kl) : kl[q].fac >= 0,
+     sum_to_one   |-> TotalWeight(kl) = WOne(geo),
+     no_duplicates |-> LiveNoDup(kl, geo, GE),
+     orbit_weights |-> BoxPreserving(GE) => OrbitWeights(kl, geo, GE) ]
 TSplitClauses ==
    LET t == TetOf(Rec.parent)  ch == TList(Rec.out)  gram == GramOf(Rec.metric)
        P == TetSamples(Rec.S, Rec.M, Rec.NS, << -(Rec.S \div 2), -(Rec.S \div 2), -(Rec.S \div 2) >>, <<1, 3, 5>>)
@@ -96,6 +105,7 @@ Clauses == CASE Rec.fn = "klist" -> KlistClauses
              [] Rec.fn = "divide" -> DivideClauses
              [] Rec.fn = "exclude" -> ExcludeClauses
              [] Rec.fn = "refine" -> RefineClauses
+             [] Rec.fn = "kstate" -> KStateClauses
              [] Rec.fn = "tsplit" -> TSplitClauses
              [] Rec.fn = "tgrid" -> TGridClauses
 Report == \A c \in DOMAIN Clauses : Clauses[c] \/ PrintT(<<"BAD", i, c>>)
